@@ -61,15 +61,21 @@ def run(ck):
         if gap:
             y[y == 1] = 0
             ck.count('middle class absent from training labels')
-        desc = dict(i=i, K=K, mode=mode, metric=metric, n_trees=n_trees, soft=soft, n=n, L=L, p0=p0, gap=gap, discrete=discrete, seed=ck.seed)
+        desc = dict(i=i, K=K, mode=mode, metric=metric, n_trees=n_trees, soft=soft, n=n, L=L, p0=p0, gap=gap, discrete=discrete, refit=bool((i % 4 == 1) and metric != 'auc'), seed=ck.seed)
         xr.seed_all(1200 + i + ck.seed)
         model = xr.xRFM(rfm_params=xr.default_rfm_params(iters=1, reg=1e-2, bandwidth=4.0), max_leaf_size=L, n_trees=n_trees, verbose=False,
                         tuning_metric=metric, classification_mode=mode, use_temperature_tuning=False,
                         split_temperature=([0.5, 3.0][(i // 3) % 2] if soft else None), refill_size=30,
                         # soft routing with a leaf cap that binds (fewer leaves allowed than the mass rule would keep) on every other soft fit
                         **(dict(max_leaf_count_in_ensemble=[2, 1, 3][(i // 6) % 3], keep_weight_frac_in_predict=[0.99, 1.0][(i // 6) % 2]) if soft and (i // 3) % 2 else {}))
+        # history: every fourth estimator has already been fitted — on other data of the same task whose class frequencies are reversed — before the fit that is examined
+        refit = (i % 4 == 1) and metric != 'auc'
         try:
             with xr.quiet():
+                if refit:
+                    X0 = xr.make_X('random', n, d, rng); y0 = rng.choice(K, size=n, p=(pr / pr.sum())[::-1]); y0[:K] = np.arange(K)
+                    model.fit(torch.tensor(X0), torch.tensor(y0), torch.tensor(Xv), torch.tensor(yv))
+                    ck.count('estimator fitted before on data with reversed class frequencies')
                 model.fit(torch.tensor(X), torch.tensor(y), torch.tensor(Xv), torch.tensor(yv))
         except Exception as e:
             ck.count(f'fit failed ({metric})'); ck.notes.append(f'fit failed {desc}: {e!r}'[:300]); continue
